@@ -23,12 +23,14 @@ def model_and_histories(ck, want=10):
     ck.add_tlc("ValueSemantics", r)
     for v in r.violated:
         ck.violation("model:ValueSemantics:" + v, {})
-    for cfg, expect in (("memo", "ResultFromCurrentContent"), ("shared", "ResultsStable"), ("inplace", "ArgsUntouched")):
+    for cfg, expect in (("memo", "ResultFromCurrentContent"), ("shared", "ResultsStable"), ("inplace", "ArgsUntouched"),
+                        ("lazyctor", "BuiltFromCtorValue")):
         rb = run_tlc("MC_ValueSemantics", "MC_ValueSemantics_%s.cfg" % cfg, workers=2, timeout=300)
         if expect not in rb.violated:
             raise MachineryError("negative control ValueSemantics/%s: %s not violated (%s)" % (cfg, expect, rb.violated))
     ck.extra["value_semantics_negative_controls"] = ("identity-keyed memo violates ResultFromCurrentContent; shared output object "
-                                                     "violates ResultsStable; writing into the argument violates ArgsUntouched")
+                                                     "violates ResultsStable; writing into the argument violates ArgsUntouched; reading a mutable constructor argument "
+                                                     "lazily violates BuiltFromCtorValue")
     hs = [h for h in tlc_printed_values(r.out, "VS_HIST")]
     if len(hs) < 50:
         raise MachineryError("ValueSemantics printed %d histories" % len(hs))
@@ -47,6 +49,8 @@ def model_and_histories(ck, want=10):
             elif op[0] == "overwrite":
                 over.add(op[1])
                 out.add(("overwrite", op[1] == lastcall))
+            elif op[0] == "overwrite_ctor":
+                out.add(("overwrite_ctor", "before-first-call" if lastcall is None else "later"))
             else:
                 nheld = max(0, nheld - 1)
                 out.add(("drop",))
@@ -98,7 +102,7 @@ def _differs(a, b, tol):
     return False
 
 
-def replay(hist, values, call, fresh_call, init=None, tol=1e-12):
+def replay(hist, values, call, fresh_call, init=None, tol=1e-12, overwrite_ctor=None):
     """values: {'c1': array, 'c2': array, 'c3': array} (equal shapes); call(arr) -> result (array or tuple of arrays) on the
     object under test; fresh_call(arr) -> reference on a fresh object.  Returns list of (clause, step, op)."""
     init = init or {"a1": "c1", "a2": "c2"}
@@ -120,6 +124,9 @@ def replay(hist, values, call, fresh_call, init=None, tol=1e-12):
             held.append([r, ref, ok])
         elif op[0] == "overwrite":
             arrs[op[1]][...] = values[op[2]]       # IN PLACE: same object, same shape, new content
+        elif op[0] == "overwrite_ctor":
+            if overwrite_ctor is not None:
+                overwrite_ctor(op[1])              # the caller reuses the mutable object it gave to the constructor
         elif op[0] == "drop":
             if held:
                 held.pop(0)
